@@ -21,14 +21,24 @@
 #include <string.h>
 
 size_t g_mc_k; /* arbitrary ghost index into the range of every memcpy/memset */
+/* contract (enforce) jobs: the buffer is created by the contract's requires, so the harness cannot
+ * name "old size"; there the kept byte is the one that lands on byte cqv_buf_k of the destination
+ * OBJECT (still one arbitrary byte per call: cqv_buf_k is arbitrary) */
+size_t cqv_buf_k;
+_Bool g_mc_tie;
 
 void *memcpy(void *dst, const void *src, size_t n) {
   __CPROVER_precondition(__CPROVER_r_ok(src, n), "memcpy src readable");
   __CPROVER_precondition(__CPROVER_w_ok(dst, n), "memcpy dst writable");
   if (n != 0) {
-    uint8_t keep = (g_mc_k < n) ? ((const uint8_t *)src)[g_mc_k] : 0;
+    size_t kk = g_mc_tie ? cqv_buf_k - (size_t)__CPROVER_POINTER_OFFSET(dst) : g_mc_k;
+    uint8_t keep = (kk < n) ? ((const uint8_t *)src)[kk] : 0;
     __CPROVER_havoc_slice(dst, n);
-    if (g_mc_k < n) ((uint8_t *)dst)[g_mc_k] = keep;
+    /* the kept byte is written with the same primitive havoc_slice uses (array_replace): under
+     * --enforce-contract a plain store into the block realloc just returned is rejected by the
+     * legacy assigns check, which cannot see realloc's allocation (library body not yet linked);
+     * the range is covered by the w_ok precondition above */
+    if (kk < n) { uint8_t one[1]; one[0] = keep; __CPROVER_array_replace((uint8_t *)dst + kk, one); }
   }
   return dst;
 }
@@ -630,4 +640,67 @@ void h_reader_fixed(void) {
   if (st == CARQUET_OK && g_mc_k < w) CQV_CANARY("fixed-width read byte observed");
   if (g_rd_base) free(g_rd_base);
   CQV_CANARY("fixed-width read harness end");
+}
+
+/* ---- enforce jobs of the contracts in contracts/buffer.ovl (reserve / append / advance) --------
+ * The contract's requires build the buffer (is_fresh), so the harness passes arbitrary pointers;
+ * only the append source is a real object (r_ok in the contract).  The ghost of the memcpy model is
+ * tied to the contract's ghost index so that the appended byte at cqv_buf_k is the kept one. */
+void h_contract_reserve(void) {
+  carquet_buffer_t *b = nondet_ptr();
+  size_t n = nondet_size_t();
+  cqv_buf_track = nondet_bool();
+  cqv_buf_k = nondet_size_t();
+  cqv_buf_old_k = nondet_u8();
+  g_mc_k = nondet_size_t();
+  carquet_status_t st = carquet_buffer_reserve(b, n);
+  if (st == CARQUET_OK) CQV_CANARY("contract reserve: can succeed"); else CQV_CANARY("contract reserve: can fail");
+  CQV_CANARY("contract reserve harness end");
+}
+
+void h_contract_append(void) {
+  carquet_buffer_t *b = nondet_ptr();
+  size_t n = nondet_size_t();
+  __CPROVER_assume(n <= H_MAXSZ);
+  uint8_t *src = malloc(n);
+  __CPROVER_assume(src != NULL);
+  cqv_buf_track = nondet_bool();
+  cqv_buf_k = nondet_size_t();
+  cqv_buf_old_k = nondet_u8();
+  g_mc_tie = 1;
+  carquet_status_t st = carquet_buffer_append(b, src, n);
+  if (st == CARQUET_OK) CQV_CANARY("contract append: can succeed"); else CQV_CANARY("contract append: can fail");
+  CQV_CANARY("contract append harness end");
+}
+
+void h_contract_advance(void) {
+  carquet_buffer_t *b = nondet_ptr();
+  size_t n = nondet_size_t();
+  cqv_buf_track = nondet_bool();
+  cqv_buf_k = nondet_size_t();
+  cqv_buf_old_k = nondet_u8();
+  g_mc_k = nondet_size_t();
+  uint8_t *p = carquet_buffer_advance(b, n);
+  if (p) CQV_CANARY("contract advance: can succeed"); else CQV_CANARY("contract advance: can fail");
+  CQV_CANARY("contract advance harness end");
+}
+
+/* ---- the contracts are usable by a caller: two real fixed-width appends with carquet_buffer_append
+ * REPLACED by its contract (job c19_buffer_contract_use): requires hold at both call sites, sizes add
+ * up, the invariant is carried from the first call to the second */
+void h_contract_use(void) {
+  carquet_buffer_t b;
+  mk_buf(&b);
+  __CPROVER_assume(b.size <= CQV_MAXBUF - 12); /* caller obligation of the contract: total stays within 2^40 */
+  cqv_buf_track = 0;
+  carquet_status_t s1 = carquet_buffer_append_u32_le(&b, nondet_u32());
+  __CPROVER_assert(s1 != CARQUET_OK || b.size == g_old.size + 4, "use: first append adds 4");
+  __CPROVER_assert(s1 == CARQUET_OK || b.size == g_old.size, "use: failed append adds nothing");
+  size_t mid = b.size;
+  carquet_status_t s2 = carquet_buffer_append_u64_le(&b, nondet_u64());
+  __CPROVER_assert(s2 != CARQUET_OK || b.size == mid + 8, "use: second append adds 8");
+  __CPROVER_assert(b.size <= b.capacity && (b.data != NULL || b.capacity == 0) && (b.data == NULL || __CPROVER_rw_ok(b.data, b.capacity)), "use: invariant after both");
+  if (s1 == CARQUET_OK && s2 == CARQUET_OK) CQV_CANARY("use: both succeed");
+  if (s1 != CARQUET_OK && s2 == CARQUET_OK) CQV_CANARY("use: first fails, second succeeds");
+  CQV_CANARY("contract use harness end");
 }
